@@ -49,7 +49,10 @@ def enable(scope=None):
 
     if os.path.exists(gitattributes):
         with io.open(gitattributes, encoding="utf8") as f:
-            if 'merge=jupyternotebook' in f.read():
+            # (a commented-out line is not a rule)
+            rules = [line for line in f.read().splitlines()
+                     if not line.lstrip().startswith('#')]
+            if any('merge=jupyternotebook' in line for line in rules):
                 # already written, nothing to do
                 return
     else:
